@@ -12,6 +12,7 @@ func init() { props["C12"] = checkC12 }
 func checkC12(r *Run) {
 	r.Explain = "(R5+) the automatic change address is chosen among the owners of all spent outputs, the forced extra input included; C12, structural clauses: (R1) transaction.create returns a transaction only after verifyCreatedUnignedInvariants succeeded on the very transaction and input list it returns; its only tail call re-enters create with the same request; inputs are looked up in the map built from the offered outputs and every pushed input is an element of the chosen spends or of offered-minus-chosen; (R2) the invariant verifier succeeds only when the transaction is unsigned, well formed (VerifyUnsigned), pays each requested output in order (address, coins, and hours when given), has at most one extra (change) output, no null address or zero coins, inputs matching the UxBalances one to one without duplicates, and burns at least the required fee; (R3) ChooseSpends: all success returns are guarded by the same two non-strict sufficiency tests (coins <= have, hours <= RemainingHours(have, user burn factor)), the insufficient-balance error only with have < coins after all candidates, every candidate appended to the result is added to both running sums in the same block, the selection loops have no exits besides exhaustion / sufficiency; (R4) DistributeCoinHoursProportional conserves hours: remaining = hours - assigned under assigned <= hours, each +1 given to an output is paired with a -1 of the remaining counter, success only when the counter reached zero; (R5) in create the requested outputs are pushed for every destination with the requested coins and (manual) requested hours or (auto) the distributed hours of the same index; the change output carries inputs-minus-outputs coins under outputs <= inputs (or the forced extra input's coins, only when change was zero) and remaining-minus-spent hours; fee hours use the user burn factor at every call in the package; (R6) arithmetic in create and the invariant verifier cannot wrap."
 	r.NotDec = "optimality of the selection; that DistributeCoinHoursProportional's scaled shares are proportional (big-integer arithmetic); index safety inside DistributeCoinHoursProportional's top-up loops (a violation would panic, not mis-assign); raw += of the running sums in ChooseSpends may wrap for offered sets whose totals exceed 2^64 — create re-sums the chosen spends with checked addition, so a wrapped selection is rejected, not used"
+	ruleMathutilIdioms(r, "C12-R1")
 	const cr = "transaction.create"
 	fn := r.fn("C12-R1", cr)
 	if fn == nil {
